@@ -264,6 +264,22 @@ func c10Check(x *core.Ctx, c *core.Case) {
 				return
 			}
 		}
+		// a subset of the rules gives the same errors on this tree (validated with every rule a moment ago) as on a tree
+		// nothing has touched yet: what an earlier validation left on the nodes is not an input
+		if fresh2, perr := parser.ParseQuery(&ast.Source{Name: "doc.graphql", Input: dsrc}); perr == nil {
+			h := core.HashString(dsrc)
+			sub := []validator.Rule{c18Standard[12], c18Standard[2], c18Standard[23]} // NoUnusedVariables, KnownArgumentNames, UniqueVariableNames
+			if h%3 != 0 {
+				sub = []validator.Rule{c18Standard[int(h>>8)%27], c18Standard[int(h>>16)%27], c18Standard[int(h>>24)%27]}
+			}
+			onFresh := serializeErrs(validator.Validate(schema, fresh2, sub...))
+			onUsed := serializeErrs(validator.Validate(schema, doc, sub...))
+			x.Count("subset_revalidations")
+			if onFresh != onUsed {
+				x.Violate("revalidate-subset:"+errListDiffKind(onFresh, onUsed), onUsed, "on a fresh parse: "+onFresh)
+				return
+			}
+		}
 		x.Count("revalidations")
 		if again := serializeErrs(validator.Validate(schema, doc)); again != first {
 			x.Violate("revalidate:"+errListDiffKind(first, again), again, first)
